@@ -178,4 +178,285 @@ Proof.
     intros s. specialize (H2 s). specialize (Hcn s). lia.
 Qed.
 
+(* ---------- one source master ---------- *)
+Hypothesis HPM : pfx (smn + dmn) = SLOT_NUM.
+
+(* accounting: R = slots still held by the sources with master index >= j *)
+Definition Jo (acc : macc) (j R : N) : Prop :=
+  R + a_num acc + pfx (smn + a_dst acc) + pfx j = SLOT_NUM + pfx smn.
+
+Lemma out_part_num idx part c acc c' acc' rl (others : N) :
+  do_part epoch avg rem smn dmn scn idx part c acc = Done (c', acc') ->
+  ck_stable c part = Some rl ->
+  Forall wf_range rl -> (forall s, (cnt s rl <= 1)%nat) -> sfo (mindex idx part) <= slots_total rl ->
+  a_cur acc = [] -> a_num acc < sfo (smn + a_dst acc) -> a_dst acc <= dmn -> Go acc -> dst_ok (a_migs acc) ->
+  Jo acc (mindex idx part) (slots_total rl + others) ->
+  pfx smn <= others + pfx (mindex idx part + 1) ->
+  exists rl', c' = set_stable c part (Some rl') /\ slots_total rl' = sfo (mindex idx part) /\
+    a_cur acc' = [] /\ a_num acc' < sfo (smn + a_dst acc') /\ a_dst acc' <= dmn /\ Go acc' /\ dst_ok (a_migs acc') /\
+    Jo acc' (mindex idx part + 1) others.
+Proof.
+  unfold do_part. intros H Hst Hw Hc Hsf Hcur Hnum Hdst HG Hok HJ HLB. rewrite Hst in H.
+  destruct (scale_out_loop (loop_fuel rl dmn) epoch avg rem smn dmn scn idx part rl acc) as [[rl' acc1]|e|] eqn:El;
+    try discriminate.
+  inversion H; subst c' acc1. clear H.
+  apply scale_out_loop_num in El; auto.
+  - destruct El as (H1 & H2 & H3 & H4 & H5 & H6 & H7 & H8 & H9 & H10).
+    unfold Jo in *. rewrite pfx_succ in *.
+    assert (Hfin : slots_total rl' = sfo (mindex idx part)).
+    { destruct H7 as [H7|H7]; [exact H7|]. rewrite H7, HPM in H8. lia. }
+    exists rl'. msplit; auto. lia.
+  - rewrite Hcur. constructor.
+  - intros s. rewrite Hcur, cnt_nil. specialize (Hc s). lia.
+  - left. exact Hcur.
+Qed.
+
+(* ---------- the source chunks ---------- *)
+Definition full (idx : nat) (srcs : list chunk) : Prop :=
+  forall i c p, nth_error srcs i = Some c -> exists st, ck_stable c p = Some st /\ sfo (mindex (idx + i) p) <= slots_total st.
+
+Lemma full_tail idx c rest : full idx (c :: rest) -> full (S idx) rest.
+Proof. intros H i c' p Hn. replace (S idx + i)%nat with (idx + S i)%nat by lia. apply (H (S i) c' p Hn). Qed.
+
+Lemma chunk_stable_some c st0 st1 : ck_stable c false = Some st0 -> ck_stable c true = Some st1 -> chunk_stable c = st0 ++ st1.
+Proof. unfold chunk_stable. cbn [ck_stable]. intros -> ->. reflexivity. Qed.
+
+Lemma pfx_mindex_step i : pfx (mindex i true) = pfx (mindex i false) + sfo (mindex i false) /\
+                          pfx (mindex (S i) false) = pfx (mindex i true) + sfo (mindex i true).
+Proof. destruct (mindex_succ i) as [A B]. split; [rewrite A|rewrite B]; apply pfx_succ. Qed.
+
+Lemma full_lower_bound : forall srcs idx, full idx srcs ->
+  pfx (mindex (idx + length srcs) false) <= slots_total (stable_ranges srcs) + pfx (mindex idx false).
+Proof.
+  induction srcs as [|c rest IH]; intros idx Hf.
+  - cbn [length]. rewrite Nat.add_0_r. cbn [stable_ranges flat_map]. change (slots_total []) with 0. lia.
+  - destruct (Hf 0%nat c false eq_refl) as (st0 & Hs0 & Hl0). destruct (Hf 0%nat c true eq_refl) as (st1 & Hs1 & Hl1).
+    rewrite Nat.add_0_r in Hl0, Hl1.
+    change (stable_ranges (c :: rest)) with (chunk_stable c ++ stable_ranges rest).
+    rewrite (chunk_stable_some c st0 st1 Hs0 Hs1), !slots_total_app.
+    specialize (IH (S idx) (full_tail idx c rest Hf)).
+    replace (idx + length (c :: rest))%nat with (S idx + length rest)%nat by (cbn [length]; lia).
+    destruct (pfx_mindex_step idx) as [A B]. lia.
+Qed.
+
+Lemma out_chunks_num : forall srcs idx acc chunks' acc',
+  scale_out_chunks epoch avg rem smn dmn scn idx srcs acc = Done (chunks', acc') ->
+  (idx + length srcs = scn)%nat ->
+  Forall wf_range (stable_ranges srcs) -> (forall s, (cnt s (stable_ranges srcs) <= 1)%nat) -> full idx srcs ->
+  a_cur acc = [] -> a_num acc < sfo (smn + a_dst acc) -> a_dst acc <= dmn -> Go acc -> dst_ok (a_migs acc) ->
+  Jo acc (mindex idx false) (slots_total (stable_ranges srcs)) ->
+  length chunks' = length srcs /\
+  (forall i c p, nth_error chunks' i = Some c -> stable_num c p = sfo (mindex (idx + i) p)) /\
+  a_cur acc' = [] /\ a_num acc' < sfo (smn + a_dst acc') /\ a_dst acc' <= dmn /\ Go acc' /\ dst_ok (a_migs acc') /\
+  Jo acc' smn 0.
+Proof.
+  induction srcs as [|c rest IH]; intros idx acc chunks' acc' H Hlen Hw Hc Hf Hcur Hnum Hdst HG Hok HJ.
+  - cbn [scale_out_chunks] in H. inversion H; subst chunks' acc'. clear H.
+    cbn [length] in Hlen. msplit; auto.
+    + intros i c p Hn. destruct i; discriminate.
+    + cbn [stable_ranges flat_map] in HJ. change (slots_total []) with 0 in HJ.
+      assert (mindex idx false = smn) by (unfold mindex, b2n; lia). congruence.
+  - rewrite scale_out_chunks_cons in H.
+    destruct (do_part epoch avg rem smn dmn scn idx false c acc) as [[c1 acc1]|e|] eqn:E0; try discriminate.
+    destruct (do_part epoch avg rem smn dmn scn idx true c1 acc1) as [[c2 acc2]|e|] eqn:E1; try discriminate.
+    destruct (scale_out_chunks epoch avg rem smn dmn scn (S idx) rest acc2) as [[rest' acc3]|e|] eqn:E2; try discriminate.
+    inversion H; subst chunks' acc3. clear H.
+    destruct (Hf 0%nat c false eq_refl) as (st0 & Hs0 & Hl0). destruct (Hf 0%nat c true eq_refl) as (st1 & Hs1 & Hl1).
+    rewrite Nat.add_0_r in Hl0, Hl1.
+    change (stable_ranges (c :: rest)) with (chunk_stable c ++ stable_ranges rest) in *.
+    rewrite (chunk_stable_some c st0 st1 Hs0 Hs1) in *.
+    apply Forall_app in Hw. destruct Hw as [Hw01 Hwr]. apply Forall_app in Hw01. destruct Hw01 as [Hw0 Hw1].
+    rewrite !slots_total_app in HJ.
+    pose proof (full_lower_bound rest (S idx) (full_tail idx c rest Hf)) as HLB.
+    replace (S idx + length rest)%nat with scn in HLB by (cbn [length] in Hlen; lia).
+    assert (Hscn : mindex scn false = smn) by (unfold mindex, b2n; lia). rewrite Hscn in HLB.
+    destruct (pfx_mindex_step idx) as [PA PB]. destruct (mindex_succ idx) as [MA MB].
+    (* part 0 *)
+    destruct (out_part_num idx false c acc c1 acc1 st0 (slots_total st1 + slots_total (stable_ranges rest)) E0 Hs0 Hw0)
+      as (rl0 & -> & Hfin0 & Hcur1 & Hnum1 & Hdst1 & HG1 & Hok1 & HJ1); auto.
+    { intros s. specialize (Hc s). rewrite !cnt_app in Hc. lia. }
+    { unfold Jo in *. lia. }
+    { rewrite <- MA. lia. }
+    (* part 1 *)
+    assert (Hs1' : ck_stable (set_stable c false (Some rl0)) true = Some st1) by (rewrite <- Hs1; reflexivity).
+    destruct (out_part_num idx true _ acc1 c2 acc2 st1 (slots_total (stable_ranges rest)) E1 Hs1' Hw1)
+      as (rl1 & -> & Hfin1 & Hcur2 & Hnum2 & Hdst2 & HG2 & Hok2 & HJ2); auto.
+    { intros s. specialize (Hc s). rewrite !cnt_app in Hc. lia. }
+    { unfold Jo in *. rewrite <- MA in HJ1. lia. }
+    { rewrite <- MB. lia. }
+    (* the rest *)
+    apply IH in E2; auto.
+    + destruct E2 as (C1 & C2 & C3 & C4 & C5 & C6 & C7 & C8). msplit; auto.
+      * cbn [length]. lia.
+      * intros i c' p Hn. destruct i as [|i].
+        -- inversion Hn; subst c'. rewrite Nat.add_0_r. unfold stable_num.
+           destruct p; cbn [set_stable ck_stable ck_stable0 ck_stable1 opt_ranges]; assumption.
+        -- cbn [nth_error] in Hn. replace (idx + S i)%nat with (S idx + i)%nat by lia. apply (C2 i c' p Hn).
+    + cbn [length] in Hlen. lia.
+    + intros s. specialize (Hc s). rewrite !cnt_app in Hc. lia.
+    + apply (full_tail idx c rest Hf).
+    + rewrite MB. exact HJ2.
+Qed.
+
 End OutNum.
+
+(* ---------- trailing slot-less chunks are skipped ---------- *)
+Lemma scale_out_chunks_free epoch avg rem smn dmn scn : forall b idx acc,
+  (forall c, In c b -> ck_stable c false = None /\ ck_stable c true = None) ->
+  scale_out_chunks epoch avg rem smn dmn scn idx b acc = Done (b, acc).
+Proof.
+  induction b as [|c b IH]; intros idx acc H; [reflexivity|].
+  rewrite scale_out_chunks_cons. destruct (H c (or_introl eq_refl)) as [H0 H1].
+  unfold do_part. rewrite H0, H1, IH; [reflexivity|]. intros c' Hc'. apply H. right. exact Hc'.
+Qed.
+
+Lemma scale_out_chunks_app epoch avg rem smn dmn scn : forall a idx acc b,
+  scale_out_chunks epoch avg rem smn dmn scn idx (a ++ b) acc =
+  match scale_out_chunks epoch avg rem smn dmn scn idx a acc with
+  | Done (a', acc1) =>
+    match scale_out_chunks epoch avg rem smn dmn scn (idx + length a) b acc1 with
+    | Done (b', acc2) => Done (a' ++ b', acc2)
+    | Fail e => Fail e
+    | Panic => Panic
+    end
+  | Fail e => Fail e
+  | Panic => Panic
+  end.
+Proof.
+  induction a as [|c a IH]; intros idx acc b.
+  - cbn [app length scale_out_chunks]. rewrite Nat.add_0_r.
+    destruct (scale_out_chunks epoch avg rem smn dmn scn idx b acc) as [[b' acc2]|e|]; reflexivity.
+  - cbn [app]. rewrite !scale_out_chunks_cons.
+    destruct (do_part epoch avg rem smn dmn scn idx false c acc) as [[c1 acc1]|e|]; try reflexivity.
+    destruct (do_part epoch avg rem smn dmn scn idx true c1 acc1) as [[c2 acc2]|e|]; try reflexivity.
+    rewrite IH.
+    destruct (scale_out_chunks epoch avg rem smn dmn scn (S idx) a acc2) as [[a' acc3]|e|]; try reflexivity.
+    replace (idx + length (c :: a))%nat with (S idx + length a)%nat by (cbn [length]; lia).
+    destruct (scale_out_chunks epoch avg rem smn dmn scn (S idx + length a) b acc3) as [[b' acc4]|e|]; reflexivity.
+Qed.
+
+(* ---------- the whole remove phase ---------- *)
+Lemma pfx_all avg rem M : rem < M -> avg * M + rem = SLOT_NUM -> pfx avg rem M = SLOT_NUM.
+Proof. intros H1 H2. unfold pfx. lia. Qed.
+
+Lemma stable_ranges_app' a b : stable_ranges (a ++ b) = stable_ranges a ++ stable_ranges b.
+Proof. unfold stable_ranges. apply flat_map_app. Qed.
+
+Lemma stable_ranges_none b : (forall c, In c b -> ck_stable c false = None /\ ck_stable c true = None) -> stable_ranges b = [].
+Proof.
+  induction b as [|c b IH]; intros H; [reflexivity|].
+  change (stable_ranges (c :: b)) with (chunk_stable c ++ stable_ranges b).
+  destruct (H c (or_introl eq_refl)) as [H0 H1]. unfold chunk_stable. cbn [ck_stable] in H0, H1. rewrite H0, H1.
+  cbn [opt_ranges app]. apply IH. intros c' Hc'. apply H. right. exact Hc'.
+Qed.
+
+Lemma nth_skipn {A} : forall k (l : list A) i, nth_error (skipn k l) i = nth_error l (k + i).
+Proof. induction k as [|k IH]; intros l i; [reflexivity|]. destruct l as [|x l]; [destruct i; reflexivity|]. cbn [skipn Nat.add nth_error]. apply IH. Qed.
+
+Lemma nth_firstn {A} : forall k (l : list A) i, (i < k)%nat -> nth_error (firstn k l) i = nth_error l i.
+Proof.
+  induction k as [|k IH]; intros l i Hi; [lia|]. destruct l as [|x l]; [reflexivity|].
+  destruct i as [|i]; [reflexivity|]. cbn [firstn nth_error]. apply IH. lia.
+Qed.
+
+Lemma nth_some_lt {A} (l : list A) i x : nth_error l i = Some x -> (i < length l)%nat.
+Proof. intros H. apply nth_error_Some. congruence. Qed.
+
+Theorem scale_out_remove_numbers cl epoch k chunks migs :
+  part_inv (cl_chunks cl) -> cluster_is_migrating cl = false -> balanced_at k (cl_chunks cl) ->
+  remove_slots_from_src cl epoch = Done (chunks, migs) ->
+  (forall i c p, nth_error chunks i = Some c ->
+      stable_num c p + msum (mindex i p) migs = share (2 * N.of_nat (length (cl_chunks cl))) (mindex i p)) /\
+  (forall rl m, In (rl, m) migs -> dst_master m < 2 * N.of_nat (length (cl_chunks cl))).
+Proof.
+  intros Hinv Hnm Hb H.
+  pose proof (not_migrating_no_migs cl Hnm) as Hno.
+  pose proof Hb as (Hk0 & Hkl & _).
+  pose proof (quiescent_filter_empty k _ Hinv Hb Hno) as Hdcn.
+  pose proof (pi_size _ Hinv) as Hsize.
+  destruct (part_inv_stable _ Hinv Hno) as [Hwf Hcov].
+  unfold remove_slots_from_src in H. rewrite Hdcn in H.
+  set (l := cl_chunks cl) in *. set (L := length l) in *.
+  replace (L - (L - k))%nat with k in H by lia.
+  set (M := 2 * N.of_nat L) in *.
+  set (avg := SLOT_NUM / M) in *. set (rem := SLOT_NUM - avg * M) in *.
+  set (smn := 2 * N.of_nat k) in *. set (dmn := 2 * N.of_nat (L - k)) in *.
+  assert (HM : 0 < M) by (unfold M; lia).
+  assert (HMs : smn + dmn = M) by (unfold smn, dmn, M; lia).
+  assert (Havg : 1 <= avg) by (unfold avg, M; apply average_pos; lia).
+  assert (Hrem : rem = SLOT_NUM mod M) by (unfold rem, avg; apply rem_is_mod; exact HM).
+  assert (Hsfo : forall j, sfo avg rem j = share M j).
+  { intros j. unfold sfo, share. rewrite Hrem. unfold b2n. reflexivity. }
+  assert (HPM : pfx avg rem (smn + dmn) = SLOT_NUM).
+  { rewrite HMs. apply pfx_all.
+    - rewrite Hrem. apply N.mod_lt. lia.
+    - rewrite Hrem. unfold avg. pose proof (N.div_mod SLOT_NUM M ltac:(lia)) as Hdm. lia. }
+  destruct (scale_out_chunks epoch avg rem smn dmn k 0 l (mkAcc 0 [] 0 [])) as [[chunks' acc']|e|] eqn:E; try discriminate.
+  inversion H; subst chunks migs. clear H.
+  (* split the chunk list into sources and slot-less chunks *)
+  assert (Hfree : forall c, In c (skipn k l) -> ck_stable c false = None /\ ck_stable c true = None).
+  { intros c Hc. apply In_nth_error in Hc. destruct Hc as [i Hi]. rewrite nth_skipn in Hi.
+    split; eapply (quiescent_shape k l Hinv Hb Hno (k + i) c); try exact Hi; lia. }
+  assert (Hlf : length (firstn k l) = k) by (apply firstn_length_le; exact Hkl).
+  pose proof (scale_out_chunks_app epoch avg rem smn dmn k (firstn k l) 0 (mkAcc 0 [] 0 []) (skipn k l)) as Happ.
+  rewrite firstn_skipn, E in Happ.
+  destruct (scale_out_chunks epoch avg rem smn dmn k 0 (firstn k l) (mkAcc 0 [] 0 [])) as [[srcs' acc1]|e|] eqn:Es;
+    try discriminate.
+  rewrite scale_out_chunks_free in Happ by exact Hfree. inversion Happ; subst chunks' acc1. clear Happ.
+  pose proof (stable_ranges_none _ Hfree) as Hfr.
+  rewrite <- (firstn_skipn k l), stable_ranges_app', Hfr, app_nil_r in Hwf, Hcov.
+  (* the sources *)
+  assert (Hlen0 : (0 + length (firstn k l) = k)%nat) by (rewrite Hlf; lia).
+  assert (Hc0 : forall s, (cnt s (stable_ranges (firstn k l)) <= 1)%nat).
+  { intros s. rewrite Hcov. unfold slot_ind. destruct (N.ltb s SLOT_NUM); lia. }
+  assert (Hfull : full avg rem 0 (firstn k l)).
+  { (* every source holds at least its new share *)
+    intros i c p Hn. cbn [Nat.add].
+    assert (Hi : (i < k)%nat) by (apply nth_some_lt in Hn; lia).
+    rewrite nth_firstn in Hn by exact Hi.
+    destruct (quiescent_shape k l Hinv Hb Hno i c p Hn) as [A _]. destruct (A Hi) as (Hs & _ & st & Hst).
+    exists st. split; [exact Hst|]. unfold stable_num in Hs. rewrite Hst in Hs. cbn [opt_ranges] in Hs.
+    rewrite Hs, Hsfo. apply share_mono; unfold M; lia. }
+  assert (Hnum0 : a_num (mkAcc 0 [] 0 []) < sfo avg rem (smn + a_dst (mkAcc 0 [] 0 []))).
+  { cbn [a_num a_dst]. pose proof (sfo_pos avg rem smn k eq_refl Havg (smn + 0)). lia. }
+  assert (Hdst0 : a_dst (mkAcc 0 [] 0 []) <= dmn) by (cbn [a_dst]; lia).
+  assert (HG0 : Go avg rem smn (mkAcc 0 [] 0 [])).
+  { intros d. cbn [a_dst a_cur a_num a_migs msum]. change (slots_total []) with 0.
+    destruct (N.eqb d (smn + 0)) eqn:E1; destruct (N.ltb d smn) eqn:E2; destruct (N.ltb d (smn + 0)) eqn:E3; lia. }
+  assert (Hok0 : dst_ok smn dmn (a_migs (mkAcc 0 [] 0 []))) by (intros l0 m []).
+  assert (HJ0 : Jo avg rem smn (mkAcc 0 [] 0 []) (mindex 0 false) (slots_total (stable_ranges (firstn k l)))).
+  { unfold Jo. cbn [a_dst a_num]. rewrite (covers_total _ Hwf Hcov).
+    assert (Hm0 : mindex 0 false = 0) by reflexivity. rewrite Hm0.
+    assert (Hp0 : pfx avg rem 0 = 0) by (unfold pfx; lia). rewrite Hp0, !N.add_0_r. reflexivity. }
+  pose proof (out_chunks_num epoch avg rem smn dmn k eq_refl Havg HPM _ _ _ _ _ Es Hlen0 Hwf Hc0 Hfull eq_refl
+                Hnum0 Hdst0 HG0 Hok0 HJ0) as R.
+  destruct R as (C1 & C2 & C3 & C4 & C5 & C6 & C7 & C8).
+  (* all destinations are served *)
+  unfold Jo in C8.
+  assert (Hend : a_dst acc' = dmn /\ a_num acc' = 0).
+  { destruct (N.eq_dec (a_dst acc') dmn) as [Heq|Hne]; [split; [exact Heq|]; rewrite Heq in C8; lia|exfalso].
+    pose proof (pfx_mono avg rem smn k eq_refl Havg (smn + a_dst acc' + 1) (smn + dmn) ltac:(lia)) as Hm.
+    rewrite (pfx_succ avg rem smn k eq_refl Havg) in Hm. lia. }
+  destruct Hend as [Hend1 Hend2].
+  assert (Hms : forall d, msum d (rev (a_migs acc')) =
+                  if N.ltb d smn then 0 else if N.ltb d (smn + dmn) then share M d else 0).
+  { intros d. rewrite msum_rev. specialize (C6 d). rewrite C3, Hend1, Hend2, Hsfo in C6.
+    change (slots_total []) with 0 in C6.
+    destruct (N.eqb d (smn + dmn)) eqn:E1; destruct (N.ltb d smn) eqn:E2; destruct (N.ltb d (smn + dmn)) eqn:E3; lia. }
+  split.
+  + intros i c p Hn. rewrite Hms. fold M.
+    destruct (Nat.lt_ge_cases i k) as [Hi|Hi].
+    * rewrite nth_error_app1 in Hn by lia. rewrite (C2 i c p Hn), Hsfo. cbn [Nat.add].
+      pose proof (mindex_lt i p k Hi) as Hlt. fold smn in Hlt.
+      destruct (N.ltb (mindex i p) smn) eqn:E1; lia.
+    * rewrite nth_error_app2 in Hn by lia. rewrite C1, Hlf in Hn.
+      assert (Hc : In c (skipn k l)) by (eapply nth_error_In; exact Hn).
+      destruct (Hfree c Hc) as [H0 H1].
+      assert (Hz : stable_num c p = 0) by (apply stable_num_none; destruct p; assumption).
+      assert (HiL : (i < L)%nat).
+      { apply nth_some_lt in Hn. rewrite skipn_length in Hn. fold L in Hn. lia. }
+      pose proof (mindex_ge i p k Hi) as Hge. fold smn in Hge.
+      pose proof (mindex_lt i p L HiL) as Hlt. fold M in Hlt.
+      rewrite Hz. destruct (N.ltb (mindex i p) smn) eqn:E1; destruct (N.ltb (mindex i p) (smn + dmn)) eqn:E2; lia.
+  + intros rl m Hin. apply in_rev in Hin. fold M. rewrite <- HMs. eapply C7. exact Hin.
+Qed.
